@@ -113,7 +113,8 @@ fn std_seglens_for(plen: usize, prefer_segs: usize) -> Option<[usize; 3]> {
             continue;
         }
         let h = rest / 12;
-        if h < s || h > 63 * s {
+        // CurrHF is a 6-bit index: at most 64 hop fields are addressable
+        if h < s || h > 63 * s || h > 64 {
             continue;
         }
         // distribute h hops over s segments, each 1..=63
@@ -653,7 +654,7 @@ fn echo_faithful(req: &[u8], reply: &[u8]) -> (bool, Vec<String>, bool) {
     }
     match reference_reverse(hq.ptype, &hq.path) {
         Some((pt, pb)) => {
-            if hr.ptype != pt || hr.path != pb {
+            if hr.ptype != pt || wire::canon_standard(&hr.path) != wire::canon_standard(&pb) {
                 why.push(if hq.ptype == 2 { "onehop-path not reversed as reference".into() } else { "path not reversed".to_string() });
             }
         }
@@ -696,7 +697,7 @@ fn descriptor(bytes: &[u8]) -> Option<Value> {
     let have = m.len();
     let trunc = have < h.pay_len;
     let fixed = wire::scmp_fixed_len(t);
-    let pfixed = fixed.max(8);
+    let pfixed = fixed.max(4);
     let complete = !trunc && have >= fixed && have >= 4;
     let ck = !trunc && have >= 4 && wire::checksum_ok(&h, wire::PROTO_SCMP, m);
     let rev = reference_reverse(h.ptype, &h.path).is_some();
@@ -787,7 +788,20 @@ fn cmd_reply(inp: &str, outp: &str) {
         let rev = c["rev"].as_bool().unwrap();
         let addr = c["addr"].as_bool().unwrap();
         let code = *rng.pick(&[0u8, 0, 1, 255]);
-        let pk = if rev { kinds_rev[i % kinds_rev.len()] } else { PathKind::Opaque };
+        let pk = match c.get("path").and_then(|x| x.as_str()) {
+            Some("empty") => PathKind::Empty,
+            Some("std1") => PathKind::Std(1),
+            Some("std2") => PathKind::Std(2),
+            Some("std3") => PathKind::Std(3),
+            Some("onehop") => PathKind::OneHop,
+            _ => {
+                if rev {
+                    kinds_rev[i % kinds_rev.len()]
+                } else {
+                    PathKind::Opaque
+                }
+            }
+        };
         let quote_err = wire::is_known_error(t) && i % 3 == 0;
         let Some(req) = build_scmp_packet(t, code, have, trunc, ck, pk, addr, quote_err, (i % 65536) as u16, &mut rng) else {
             w.write(&json!({"i": i, "infeasible": true}));
@@ -807,9 +821,682 @@ fn cmd_reply(inp: &str, outp: &str) {
     w.finish();
 }
 
+// =================================================================================================
+// router: offending packets at the simulated (pocketscion) routers
+// =================================================================================================
+
+struct Scenario {
+    ctx: TestPathContext,
+    src: ScionAddr,
+    dst: ScionAddr,
+}
+
+fn scenario(site: &str) -> Scenario {
+    let src: ScionAddr = ScionAddr::new(ia(1, 1), v4(10, 0, 0, 1));
+    let dst_bound: ScionAddr = ScionAddr::new(ia(1, 99), v4(11, 0, 0, 1));
+    let dst = if site == "unreachable" { ScionAddr::new(ia(1, 99), v4(11, 0, 0, 77)) } else { dst_bound };
+    let b = TestPathBuilder::new(src, dst).up();
+    let (b, ts) = match site {
+        "expired" => (b.add_hop(0, 1).add_hop(2, 3).add_hop(4, 0), 1_234_567u32),
+        "egress_down" => (b.add_hop(0, 1).add_hop_with_egress_down(2, 3).add_hop(4, 0), 100),
+        "alert_in" => (b.add_hop(0, 1).add_hop_with_alerts(2, true, 3, false).add_hop(4, 0), 100),
+        "alert_eg" => (b.add_hop(0, 1).add_hop_with_alerts(2, false, 3, true).add_hop(4, 0), 100),
+        _ => (b.add_hop(0, 1).add_hop(2, 3).add_hop(4, 0), 100), // deliver / unreachable
+    };
+    Scenario { ctx: b.build(ts), src, dst }
+}
+
+/// hop fields / info fields of a standard path, for the order-insensitive-to-pointers reversal check
+fn std_parts(pb: &[u8]) -> Option<([usize; 3], Vec<Vec<u8>>, Vec<Vec<u8>>)> {
+    if pb.len() < 4 {
+        return None;
+    }
+    let meta = u32::from_be_bytes([pb[0], pb[1], pb[2], pb[3]]);
+    let sl = [((meta >> 12) & 0x3f) as usize, ((meta >> 6) & 0x3f) as usize, (meta & 0x3f) as usize];
+    let nseg = sl.iter().filter(|&&x| x > 0).count();
+    let nh: usize = sl.iter().sum();
+    if pb.len() != 4 + 8 * nseg + 12 * nh {
+        return None;
+    }
+    let infos = (0..nseg).map(|i| pb[4 + 8 * i..12 + 8 * i].to_vec()).collect();
+    let h0 = 4 + 8 * nseg;
+    let hops = (0..nh).map(|i| pb[h0 + 12 * i..h0 + 12 * i + 12].to_vec()).collect();
+    Some((sl, infos, hops))
+}
+
+/// reply path = reversal of the request path, ignoring the pointers and the SegID (both change in flight)
+fn weakly_reversed(req_path: &[u8], rep_path: &[u8]) -> bool {
+    let (Some((sl, inf, hops)), Some((rsl, rinf, rhops))) = (std_parts(req_path), std_parts(rep_path)) else { return false };
+    let nseg = inf.len();
+    let mut want_sl = [0usize; 3];
+    for i in 0..nseg {
+        want_sl[i] = sl[nseg - 1 - i];
+    }
+    if rsl != want_sl || rinf.len() != nseg {
+        return false;
+    }
+    for i in 0..nseg {
+        let a = &inf[nseg - 1 - i];
+        let b = &rinf[i];
+        if (a[0] ^ 1) != b[0] || a[4..8] != b[4..8] {
+            return false;
+        }
+    }
+    let mut rh = hops.clone();
+    rh.reverse();
+    // hop fields are immutable in flight except the router alert flags (cleared by the router that handles them)
+    let strip = |v: &Vec<Vec<u8>>| -> Vec<Vec<u8>> {
+        v.iter()
+            .map(|h| {
+                let mut h = h.clone();
+                h[0] &= !0x03;
+                h
+            })
+            .collect()
+    };
+    strip(&rh) == strip(&rhops)
+}
+
+fn cmd_router(inp: &str, outp: &str) {
+    let cases = read_ndjson(inp);
+    let mut w = NdjsonWriter::create(outp);
+    let mut rng = Rng::new(seed_from_env() ^ 0xC14C);
+    for (i, c) in cases.iter().enumerate() {
+        let site = c["site"].as_str().unwrap();
+        let scmp = c["scmp"].as_bool().unwrap();
+        let t = c["t"].as_u64().unwrap() as u8;
+        let have = c["have"].as_u64().unwrap() as usize;
+        let ck = c["ck"].as_bool().unwrap_or(true);
+        let sc = scenario(site);
+        let id = (i % 65536) as u16;
+        let seq = rng.below(65536) as u16;
+        let data = rng.bytes(24);
+        // the offending packet
+        let pkt: Result<Vec<u8>, String> = if scmp {
+            let quote = offender_bytes(80, &mut rng);
+            let mut m = scmp_template(t, 0, id, seq, &data, &quote, &mut rng);
+            if m.len() < have {
+                m.extend_from_slice(&rng.bytes(have - m.len()));
+            }
+            m.truncate(have);
+            ScionRawPacket::new(sc.src, sc.dst, sc.ctx.data_plane_path.clone(), ProtocolNumber::Scmp, m).try_encode_to_owned_view().map(|v| v.as_slice().to_vec()).map_err(|e| format!("{e:?}")).map(|mut b| {
+                if have >= 4 {
+                    wire::fix_l4_checksum(&mut b);
+                    if !ck {
+                        let hl = b[5] as usize * 4;
+                        b[hl + 2] ^= 0x55;
+                        b[hl + 3] ^= 0xaa;
+                    }
+                }
+                b
+            })
+        } else {
+            sc.ctx.scion_packet_udp(&data, 22222, 11111).into_raw().try_encode_to_owned_view().map(|v| v.as_slice().to_vec()).map_err(|e| format!("{e:?}"))
+        };
+        let Ok(original) = pkt else {
+            w.write(&json!({"i": i, "build_err": pkt.err()}));
+            continue;
+        };
+        let mut work = original.clone();
+        let src_dp = Arc::new(RecReceiver::default());
+        let dst_dp = Arc::new(RecReceiver::default());
+        let mut targets = NetworkReceiverRegistry::new();
+        targets.add_receiver(ia(1, 1), "10.0.0.1/32".parse().unwrap(), src_dp.clone()).unwrap();
+        targets.add_receiver(ia(1, 99), "11.0.0.1/32".parse().unwrap(), dst_dp.clone()).unwrap();
+        let ext = ExternalAsRegistry::new();
+        let ts = sc.ctx.timestamp;
+        let res = catch(|| {
+            let topology = sc.ctx.build_topology();
+            let (view, _) = ScionRawPacketView::try_from_mut_slice(&mut work).map_err(|e| format!("raw view: {e:?}"))?;
+            NetworkSimulator::new(&targets, &ext, &topology, false).dispatch(ia(1, 1), 0, ScionNetworkTime(ts), view);
+            Ok::<(), String>(())
+        });
+        let mut o = json!({"i": i, "site": site});
+        match res {
+            Err(p) => o["panic"] = json!(p),
+            Ok(Err(e)) => o["sim_err"] = json!(e),
+            Ok(Ok(())) => {}
+        }
+        let back = src_dp.got.lock().unwrap().clone();
+        let fwd = dst_dp.got.lock().unwrap().clone();
+        o["answers"] = json!(back.len());
+        o["delivered"] = json!(fwd.len());
+        let mut rets = vec![];
+        let hq = wire::parse_hdr(&original);
+        for b in &back {
+            let mut m = measure_error(b, &original, Some(&work));
+            if let (Some((hr, dr)), Some(hq)) = (wire::describe_scmp(b), &hq) {
+                m["to_requester"] = json!(hr.dst_ia == hq.src_ia && hr.dst_host == hq.src_host);
+                m["weakly_reversed"] = json!(weakly_reversed(&hq.path, &hr.path));
+                if dr.t == 129 || dr.t == 131 {
+                    let same = if let Some((_, dq)) = wire::describe_scmp(&original) { dq.id == dr.id && dq.seq == dr.seq && (dr.t == 131 || dq.data == dr.data) } else { false };
+                    m["echo_same"] = json!(same);
+                }
+            }
+            rets.push(m);
+        }
+        o["returned"] = json!(rets);
+        o["pkt"] = json!(wire::hex(&original));
+        w.write(&o);
+    }
+    w.finish();
+}
+
+// =================================================================================================
+// socket: arrival sequences on the real PathUnawareUdpScionSocket (in-memory underlay hook)
+// =================================================================================================
+
+const SOCK_LOCAL_IA: (u16, u64) = (2, 0xff00_0000_0220);
+const SOCK_LOCAL_IP: [u8; 4] = [198, 51, 100, 7];
+
+/// concrete packet of an abstract kind of MC_ScmpSocket, carrying `id`
+fn socket_packet(kind: &str, id: u16, rng: &mut Rng) -> Vec<u8> {
+    let n = 1 + rng.below(3) as usize;
+    let sl = match n {
+        1 => [2, 0, 0],
+        2 => [2, 2, 0],
+        _ => [2, 1, 2],
+    };
+    let nh: usize = sl.iter().sum();
+    let (ptype, pb) = if rng.chance(1, 4) { (0u8, vec![]) } else { (1u8, std_path_bytes(sl, n - 1, nh - 1, rng)) };
+    let src_host = [192, 0, 2, (1 + rng.below(200)) as u8];
+    let mk = |next: u8, payload: &[u8]| wire::build_packet(next, ptype, (0, 0), (0, 0), ia_bytes(SOCK_LOCAL_IA.0, SOCK_LOCAL_IA.1), ia_bytes(1, 0xff00_0000_0110), &SOCK_LOCAL_IP, &src_host, &pb, payload);
+    let mut quote = offender_bytes(60, rng);
+    quote.extend_from_slice(&id.to_be_bytes());
+    let seq = rng.below(65536) as u16;
+    let dl = rng.below(40) as usize;
+    let data = rng.bytes(dl);
+    let scmp = |t: u8, rng: &mut Rng| scmp_template(t, 0, id, seq, &data, &quote, rng);
+    let flip = |mut b: Vec<u8>| {
+        let hl = b[5] as usize * 4;
+        b[hl + 2] ^= 0x55;
+        b[hl + 3] ^= 0xaa;
+        b
+    };
+    match kind {
+        "dgram" => {
+            let mut udp = vec![0u8; 8];
+            udp[0..2].copy_from_slice(&(30000u16 + rng.below(1000) as u16).to_be_bytes());
+            udp[2..4].copy_from_slice(&443u16.to_be_bytes());
+            let mut pl = id.to_be_bytes().to_vec();
+            let extra = rng.below(50) as usize;
+            pl.extend_from_slice(&rng.bytes(extra));
+            udp[4..6].copy_from_slice(&((8 + pl.len()) as u16).to_be_bytes());
+            udp.extend_from_slice(&pl);
+            let mut b = mk(17, &udp);
+            wire::fix_l4_checksum(&mut b);
+            b
+        }
+        "bad_udp" => mk(17, &rng.bytes(3)),
+        "err" | "bad_err" => {
+            let t = *rng.pick(&[1u8, 2, 4, 5, 6]);
+            let mut b = mk(202, &scmp(t, rng));
+            wire::fix_l4_checksum(&mut b);
+            if kind == "bad_err" { flip(b) } else { b }
+        }
+        "uerr" => {
+            let mut b = mk(202, &scmp(100, rng));
+            wire::fix_l4_checksum(&mut b);
+            b
+        }
+        "req" | "bad_req" => {
+            let mut b = mk(202, &scmp(128, rng));
+            wire::fix_l4_checksum(&mut b);
+            if kind == "bad_req" { flip(b) } else { b }
+        }
+        "rep" => {
+            let mut b = mk(202, &scmp(129, rng));
+            wire::fix_l4_checksum(&mut b);
+            b
+        }
+        "uinfo" => {
+            let mut b = mk(202, &scmp(200, rng));
+            wire::fix_l4_checksum(&mut b);
+            b
+        }
+        _ => mk(6, &rng.bytes(20)),
+    }
+}
+
+/// abstract view of a packet on the underlay for the trace ("arrive" event fields)
+fn arrive_fields(bytes: &[u8]) -> Value {
+    let dummy = json!({"t": 0, "complete": false, "ck": false, "parsed": false, "rev": true, "addr": true});
+    let Some(h) = wire::parse_hdr(bytes) else { return json!({"proto": "other", "udp_ok": false, "d": dummy}) };
+    match h.next {
+        wire::PROTO_UDP => {
+            let m = h.payload(bytes);
+            let ok = m.len() >= 8 && u16::from_be_bytes([m[4], m[5]]) >= 8 && matches!((h.st, h.sl), (0, 0) | (0, 3));
+            json!({"proto": "udp", "udp_ok": ok, "d": dummy})
+        }
+        wire::PROTO_SCMP => {
+            let mut d = descriptor(bytes).unwrap_or(dummy);
+            if let Some(o) = d.as_object_mut() {
+                o.remove("have");
+                o.remove("trunc");
+            }
+            json!({"proto": "scmp", "udp_ok": false, "d": d})
+        }
+        _ => json!({"proto": "other", "udp_ok": false, "d": dummy}),
+    }
+}
+
+struct SockRun {
+    delivered: Vec<u64>,
+    notified: Vec<Vec<u64>>,
+    sent: Vec<u64>,
+    unfaithful: Vec<String>,
+    steps: Vec<Value>,
+    panic: Option<String>,
+    leftover: usize,
+}
+
+fn poll_once<F: std::future::Future>(f: F) -> Option<F::Output> {
+    let mut f = std::pin::pin!(f);
+    let mut cx = std::task::Context::from_waker(std::task::Waker::noop());
+    match f.as_mut().poll(&mut cx) {
+        std::task::Poll::Ready(x) => Some(x),
+        std::task::Poll::Pending => None,
+    }
+}
+
+/// Run the packets (id = index+1) through a fresh socket. `splits` = after how many injected packets the
+/// application drains the socket (the last drain is implicit).
+fn run_socket(pkts: &[Vec<u8>], echo: bool, splits: &[usize], send_fails: bool, rng: &mut Rng) -> SockRun {
+    let r1 = Arc::new(ErrRecorder::default());
+    let r2 = Arc::new(ErrRecorder::default());
+    let rs: Vec<Arc<dyn ScmpErrorReceiver>> = vec![r1.clone(), r2.clone()];
+    let extra: Vec<Box<dyn ScmpHandler>> = if echo { vec![Box::new(DefaultEchoHandler::new())] } else { vec![] };
+    let local = ScionSocketIpAddr::new(ia(SOCK_LOCAL_IA.0, SOCK_LOCAL_IA.1), IpAddr::V4(Ipv4Addr::from(SOCK_LOCAL_IP)), 443);
+    let (sock, handle) = sockhook::socket_over_memory(local, &rs, extra);
+    handle.set_send_fails(send_fails);
+    let mut run = SockRun { delivered: vec![], notified: vec![vec![], vec![]], sent: vec![], unfaithful: vec![], steps: vec![], panic: None, leftover: 0 };
+    let mut injected = 0usize;
+    let mut consumed = 0usize; // packets taken off the underlay so far (FIFO)
+    let mut rejected: Vec<usize> = vec![];
+    let mut seen_notif = [0usize, 0usize];
+    let mut order: Vec<usize> = vec![]; // ids in underlay order (accepted by inject)
+    let mut cuts: Vec<usize> = splits.to_vec();
+    cuts.push(pkts.len());
+    for cut in cuts {
+        while injected < cut.min(pkts.len()) {
+            if handle.inject(&pkts[injected]) {
+                order.push(injected + 1);
+            } else {
+                rejected.push(injected + 1);
+            }
+            injected += 1;
+        }
+        // the application drains the socket
+        loop {
+            let before = handle.pending();
+            let with_path = rng.chance(1, 2);
+            let mut buf = vec![0u8; 2048];
+            let res = catch(|| {
+                if with_path {
+                    poll_once(sock.recv_from_with_path(&mut buf)).map(|r| r.map(|(n, a, _)| (n, a)))
+                } else {
+                    poll_once(sock.recv_from(&mut buf))
+                }
+            });
+            let after = handle.pending();
+            let took = before - after;
+            let mut delivered_id: Option<u64> = None;
+            let mut stop = false;
+            match res {
+                Err(p) => {
+                    run.panic = Some(p);
+                    stop = true;
+                }
+                Ok(None) => stop = true, // Pending: underlay drained
+                Ok(Some(Err(e))) => {
+                    run.panic = Some(format!("recv error: {e:?}"));
+                    stop = true;
+                }
+                Ok(Some(Ok((n, _src)))) => {
+                    let id = if n >= 2 { u16::from_be_bytes([buf[0], buf[1]]) as u64 } else { 0 };
+                    delivered_id = Some(id);
+                    run.delivered.push(id);
+                }
+            }
+            // attribute observations to the packets consumed by this call
+            let ids: Vec<usize> = order[consumed..consumed + took].to_vec();
+            consumed += took;
+            let mut notif_now: Vec<Vec<u64>> = vec![vec![], vec![]];
+            for (ri, r) in [&r1, &r2].iter().enumerate() {
+                let g = r.got.lock().unwrap();
+                for (_, q, _) in g.iter().skip(seen_notif[ri]) {
+                    let id = if q.len() >= 2 { u16::from_be_bytes([q[q.len() - 2], q[q.len() - 1]]) as u64 } else { 0 };
+                    notif_now[ri].push(id);
+                    run.notified[ri].push(id);
+                }
+                seen_notif[ri] = g.len();
+            }
+            let mut sent_now: Vec<u64> = vec![];
+            for b in handle.take_sent() {
+                let id = wire::describe_scmp(&b).map(|(_, d)| d.id as u64).unwrap_or(0);
+                sent_now.push(id);
+                run.sent.push(id);
+                // faithful to its request?
+                if id >= 1 && (id as usize) <= pkts.len() {
+                    let (f, why, ck) = echo_faithful(&pkts[id as usize - 1], &b);
+                    if !f || !ck {
+                        run.unfaithful.push(format!("reply to {id}: {why:?} ck={ck}"));
+                    }
+                }
+            }
+            for (k, id) in ids.iter().enumerate() {
+                let last = k + 1 == ids.len();
+                let idu = *id as u64;
+                run.steps.push(json!({"ev": "step", "id": id, "deliver": last && delivered_id == Some(idu) ,
+                    "notified": [notif_now[0].iter().filter(|&&x| x == idu).count(), notif_now[1].iter().filter(|&&x| x == idu).count()],
+                    "sent": sent_now.contains(&idu)}));
+            }
+            if let Some(d) = delivered_id {
+                // a delivery that does not belong to the last consumed packet is reported as its own observation
+                if ids.last().map(|&x| x as u64) != Some(d) {
+                    run.unfaithful.push(format!("delivered id {d} is not the packet taken off the underlay ({ids:?})"));
+                }
+            }
+            if stop {
+                break;
+            }
+        }
+    }
+    run.leftover = handle.pending();
+    let _ = rejected;
+    run
+}
+
+fn cmd_socket(inp: &str, outp: &str) {
+    let beh = read_ndjson(inp);
+    let mut w = NdjsonWriter::create(outp);
+    let mut rng = Rng::new(seed_from_env() ^ 0xC14D);
+    for (i, b) in beh.iter().enumerate() {
+        let kinds: Vec<String> = b["input"].as_array().unwrap().iter().map(|x| x.as_str().unwrap().to_string()).collect();
+        let echo = b["echo"].as_bool().unwrap_or(true);
+        let pkts: Vec<Vec<u8>> = kinds.iter().enumerate().map(|(k, kind)| socket_packet(kind, (k + 1) as u16, &mut rng)).collect();
+        // interleaving of arrivals and receive calls: one random split point
+        let splits = if pkts.len() > 1 && rng.chance(1, 2) { vec![1 + rng.below(pkts.len() as u64 - 1) as usize] } else { vec![] };
+        let send_fails = i % 7 == 3;
+        let run = run_socket(&pkts, echo, &splits, send_fails, &mut rng);
+        w.write(&json!({"i": i, "delivered": run.delivered, "notified": run.notified, "sent": run.sent, "unfaithful": run.unfaithful,
+                        "panic": run.panic, "leftover": run.leftover, "send_fails": send_fails, "splits": splits}));
+    }
+    w.finish();
+}
+
+// =================================================================================================
+// record: seeded random executions of the real code as a trace for Trace_Scmp
+// =================================================================================================
+
+fn pick_type(rng: &mut Rng) -> u8 {
+    match rng.below(10) {
+        0..=2 => 128,
+        3 => 129,
+        4 => *rng.pick(&[130u8, 131]),
+        5..=6 => *rng.pick(&[1u8, 2, 4, 5, 6]),
+        7 => rng.below(128) as u8,
+        8 => 128 + rng.below(128) as u8,
+        _ => rng.below(256) as u8,
+    }
+}
+
+fn cmd_record(evp: &str, resp: &str) {
+    let thorough = tier_is_thorough();
+    let mut rng = Rng::new(seed_from_env() ^ 0xC14E);
+    let mut w = NdjsonWriter::create(evp);
+    w.write(&json!({"ev": "meta", "echo": true, "nrecv": 2, "seed": seed_from_env()}));
+    let mut pv: Vec<Value> = vec![]; // P-monitor violations found on the harness side
+    let mut stats = serde_json::Map::new();
+    let mut bump = |k: &str, stats: &mut serde_json::Map<String, Value>| {
+        let v = stats.get(k).and_then(|x| x.as_u64()).unwrap_or(0);
+        stats.insert(k.to_string(), json!(v + 1));
+    };
+    let kinds = ["DestUnreach", "PacketTooBig", "ParamProblem", "ExtIfDown", "IntConnDown"];
+    let scmphdr = |k: &str| match k {
+        "ExtIfDown" => 20usize,
+        "IntConnDown" => 28,
+        _ => 8,
+    };
+
+    // ---- (a) quoting: random (kind, header size, offender length) through a random constructor
+    let nq = if thorough { 6000 } else { 1200 };
+    for _ in 0..nq {
+        let kind = *rng.pick(&kinds);
+        let hdr = 36 + 4 * rng.below(247) as usize;
+        let budget = 1232 - hdr - scmphdr(kind);
+        let off = match rng.below(6) {
+            0 => rng.below(64) as usize,
+            1 => budget - 1 - rng.below(3) as usize,
+            2 => budget + rng.below(4) as usize,
+            3 => 9216 - rng.below(3) as usize,
+            4 => rng.below(9217) as usize,
+            _ => rng.below(2000) as usize,
+        };
+        let offender = offender_bytes(off, &mut rng);
+        let msg = mk_error(kind, offender.clone(), &mut rng);
+        let mut built: Vec<(String, Vec<u8>, Result<Vec<u8>, String>)> = vec![];
+        match rng.below(4) {
+            0 | 1 => {
+                let shapes = shapes_for_hdr(hdr, &mut rng);
+                if !shapes.is_empty() {
+                    let sh = rng.pick(&shapes).clone();
+                    let raw_first = rng.chance(1, 2);
+                    let r = catch(|| ctor_sciparse(&sh, &msg, raw_first)).unwrap_or_else(|p| Err(format!("PANIC {p}")));
+                    built.push((format!("sciparse/{}", sh.name), offender.clone(), r));
+                }
+            }
+            2 => {
+                for (n, r) in ctor_pocket_reply(hdr, &msg, &mut rng) {
+                    built.push((n, offender.clone(), r));
+                }
+            }
+            _ => {
+                let h = *rng.pick(&[36usize, 48, 60]);
+                for (n, d, r) in ctor_snap(h, off, rng.below(3), &mut rng) {
+                    built.push((n, d, r));
+                }
+            }
+        }
+        for (name, offb, r) in built {
+            match r {
+                Err(e) => {
+                    bump("quote_not_built", &mut stats);
+                    if e.starts_with("PANIC") {
+                        pv.push(json!({"key": format!("Panic:{}", name.split('/').next().unwrap()), "what": format!("{name}: {e} (kind {kind}, hdr {hdr}, off {off})")}));
+                    }
+                }
+                Ok(b) => {
+                    let m = measure_error(&b, &offb, None);
+                    if m.get("unparsable").is_some() {
+                        pv.push(json!({"key": format!("Unparsable:{}", name.split('/').next().unwrap()), "what": format!("{name} built a packet the reference reader cannot parse"), "pkt": wire::hex(&b)}));
+                        continue;
+                    }
+                    bump("quote_events", &mut stats);
+                    let is_snap = name.starts_with("snap");
+                    let k = if is_snap { "ParamProblem" } else { kind };
+                    w.write(&json!({"ev": "quote", "ctor": name, "kind": k, "hdr": m["hdr"], "off": offb.len(), "total": m["total"], "quote": m["quote"],
+                                    "prefix": m["prefix"], "ck": m["ck"]}));
+                }
+            }
+        }
+    }
+
+    // ---- (b) reply decision: random and mutated SCMP packets into both handlers
+    let nh = if thorough { 20000 } else { 4000 };
+    let pks = [PathKind::Empty, PathKind::Std(1), PathKind::Std(2), PathKind::Std(3), PathKind::OneHop, PathKind::Opaque];
+    for i in 0..nh {
+        let t = pick_type(&mut rng);
+        let have = match rng.below(5) {
+            0 => rng.below(9) as usize,
+            1 => wire::scmp_fixed_len(t).saturating_sub(1) + rng.below(3) as usize,
+            _ => rng.below(160) as usize,
+        };
+        let trunc = rng.chance(1, 8);
+        let ck = have >= 4 && !rng.chance(1, 4);
+        let pk = *rng.pick(&pks);
+        let addr = !rng.chance(1, 10);
+        let Some(req) = build_scmp_packet(t, rng.below(256) as u8, have, trunc, ck, pk, addr, rng.chance(1, 4), (i % 65536) as u16, &mut rng) else { continue };
+        let mut bytes = req.bytes;
+        // mutations of valid messages: flip bytes anywhere after the common header's length fields
+        if rng.chance(1, 3) {
+            let n = 1 + rng.below(3);
+            for _ in 0..n {
+                let hl = bytes[5] as usize * 4;
+                let pos = if rng.chance(1, 2) && bytes.len() > hl { hl + rng.below((bytes.len() - hl) as u64) as usize } else { 12 + rng.below((bytes.len() - 12) as u64) as usize };
+                bytes[pos] ^= 1 << rng.below(8);
+            }
+        }
+        let Some(d) = descriptor(&bytes) else {
+            bump("handle_not_scmp_after_mutation", &mut stats);
+            continue;
+        };
+        let o = observe_handlers(&bytes);
+        if !o.raw_ok {
+            bump("handle_raw_rejected", &mut stats);
+            continue;
+        }
+        bump("handle_packets", &mut stats);
+        if let Some(p) = &o.echo_panic {
+            pv.push(json!({"key": "Panic:DefaultEchoHandler", "what": format!("DefaultEchoHandler::handle panicked: {p}"), "pkt": wire::hex(&bytes)}));
+        }
+        if let Some(p) = &o.err_panic {
+            pv.push(json!({"key": "Panic:ScmpErrorHandler", "what": format!("ScmpErrorHandler::handle panicked: {p}"), "pkt": wire::hex(&bytes)}));
+        }
+        let mut dd = d.clone();
+        if let Some(m) = dd.as_object_mut() {
+            m.remove("have");
+            m.remove("trunc");
+        }
+        w.write(&json!({"ev": "handle", "site": "echo", "d": dd, "replies": o.echo_replies, "faithful": o.echo_faithful && o.echo_reply_ck, "notified": 0, "pkt": wire::hex(&bytes)}));
+        let nmin = *o.notified.iter().min().unwrap();
+        let nmax = *o.notified.iter().max().unwrap();
+        // receivers are notified alike; a disagreement is reported as the smaller count plus a P note
+        if nmin != nmax || !o.notif_content_ok {
+            pv.push(json!({"key": "ErrorsReachReceivers:receivers-disagree-or-content", "what": format!("receivers notified {:?}, content_ok={}", o.notified, o.notif_content_ok), "pkt": wire::hex(&bytes)}));
+        }
+        w.write(&json!({"ev": "handle", "site": "error", "d": dd, "replies": o.err_replies, "faithful": true, "notified": nmin}));
+    }
+
+    // ---- (b') routers: random offending packets at the three failure sites
+    let nr = if thorough { 1500 } else { 300 };
+    let sites = ["expired", "egress_down", "unreachable"];
+    for i in 0..nr {
+        let site = *rng.pick(&sites);
+        let t = pick_type(&mut rng);
+        let have = *rng.pick(&[0usize, 3, 4, 7, 8, 9, 20, 28, 60]);
+        let sc = scenario(site);
+        let quote = offender_bytes(40, &mut rng);
+        let mut m = scmp_template(t, 0, i as u16, 7, &[1, 2, 3], &quote, &mut rng);
+        if m.len() < have {
+            m.extend_from_slice(&rng.bytes(have - m.len()));
+        }
+        m.truncate(have);
+        let Ok(mut original) = ScionRawPacket::new(sc.src, sc.dst, sc.ctx.data_plane_path.clone(), ProtocolNumber::Scmp, m).try_encode_to_owned_view().map(|v| v.as_slice().to_vec()) else { continue };
+        if have >= 4 {
+            wire::fix_l4_checksum(&mut original);
+        }
+        let mut work = original.clone();
+        let src_dp = Arc::new(RecReceiver::default());
+        let mut targets = NetworkReceiverRegistry::new();
+        targets.add_receiver(ia(1, 1), "10.0.0.1/32".parse().unwrap(), src_dp.clone()).unwrap();
+        let ext = ExternalAsRegistry::new();
+        let ts = sc.ctx.timestamp;
+        let res = catch(|| {
+            let topology = sc.ctx.build_topology();
+            if let Ok((view, _)) = ScionRawPacketView::try_from_mut_slice(&mut work) {
+                NetworkSimulator::new(&targets, &ext, &topology, false).dispatch(ia(1, 1), 0, ScionNetworkTime(ts), view);
+            }
+        });
+        if let Err(p) = res {
+            pv.push(json!({"key": "Panic:pocketscion-dispatch", "what": format!("NetworkSimulator::dispatch panicked: {p}"), "pkt": wire::hex(&original)}));
+            continue;
+        }
+        let back = src_dp.got.lock().unwrap().clone();
+        bump("router_events", &mut stats);
+        w.write(&json!({"ev": "router", "o": {"scmp": true, "t": t, "has4": have >= 4, "parsed": have >= wire::scmp_fixed_len(t).max(4)}, "answers": back.len(), "site": site}));
+        for b in &back {
+            let mm = measure_error(b, &original, Some(&work));
+            if mm.get("unparsable").is_none() {
+                w.write(&json!({"ev": "quote", "ctor": format!("pocket_sim/{site}"), "kind": "other", "hdr": mm["hdr"], "off": original.len(), "total": mm["total"], "quote": mm["quote"], "prefix": mm["prefix"], "ck": mm["ck"]}));
+            }
+        }
+    }
+
+    // ---- (d) socket runs with random packets
+    let ns = if thorough { 1200 } else { 250 };
+    let skinds = ["dgram", "dgram", "bad_udp", "err", "err", "bad_err", "uerr", "req", "bad_req", "rep", "uinfo", "other"];
+    let mut runs = 0u64;
+    for _ in 0..ns {
+        let n = 1 + rng.below(12) as usize;
+        let mut pkts: Vec<Vec<u8>> = vec![];
+        for k in 0..n {
+            let kind = *rng.pick(&skinds);
+            let mut b = socket_packet(kind, (k + 1) as u16, &mut rng);
+            if rng.chance(1, 6) {
+                // mutate the L4 part (never the id-carrying bytes of datagrams: first two payload bytes stay)
+                let hl = b[5] as usize * 4;
+                if b.len() > hl + 14 {
+                    // (never the id-carrying bytes: echo identifier, first two datagram bytes, last two quote bytes)
+                    let pos = hl + 10 + rng.below((b.len() - hl - 12) as u64) as usize;
+                    b[pos] ^= 1 << rng.below(8);
+                }
+            }
+            pkts.push(b);
+        }
+        let mut splits = vec![];
+        if n > 1 {
+            let k = rng.below(3);
+            for _ in 0..k {
+                splits.push(1 + rng.below(n as u64 - 1) as usize);
+            }
+            splits.sort();
+        }
+        // (send failures are exercised by the socket replay; the hook records accepted sends only)
+        let send_fails = false;
+        let run = run_socket(&pkts, true, &splits, send_fails, &mut rng);
+        runs += 1;
+        w.write(&json!({"ev": "reset"}));
+        for (k, b) in pkts.iter().enumerate() {
+            let mut a = arrive_fields(b);
+            a["ev"] = json!("arrive");
+            a["id"] = json!(k + 1);
+            w.write(&a);
+        }
+        for st in &run.steps {
+            let st = st.clone();
+            w.write(&st);
+        }
+        if let Some(p) = &run.panic {
+            pv.push(json!({"key": "Panic:socket-recv", "what": format!("recv_from failed/panicked: {p}")}));
+        }
+        for u in &run.unfaithful {
+            pv.push(json!({"key": "SocketReply:unfaithful", "what": u}));
+        }
+        let _ = send_fails;
+    }
+    stats.insert("socket_runs".into(), json!(runs));
+    w.finish();
+    let res = json!({"pv": pv, "stats": stats});
+    std::fs::write(resp, serde_json::to_string(&res).unwrap()).unwrap_or_else(|e| {
+        eprintln!("cannot write {resp}: {e}");
+        std::process::exit(2)
+    });
+}
+
 fn main() {
     quiet_panics();
     let a: Vec<String> = std::env::args().collect();
+    if a.len() == 3 && a[1] == "one" {
+        // debugging / stored counterexamples: feed one packet (hex) to the handlers
+        let b = wire::unhex(&a[2]);
+        let o = observe_handlers(&b);
+        let mut j = obs_json(&o);
+        j["d"] = descriptor(&b).unwrap_or(Value::Null);
+        j["reply"] = json!(o.reply_hex);
+        println!("{}", serde_json::to_string_pretty(&j).unwrap());
+        return;
+    }
     if a.len() < 4 {
         eprintln!("usage: c14_scmp quote|reply|router|socket|record <in> <out>");
         std::process::exit(2);
@@ -817,6 +1504,9 @@ fn main() {
     match a[1].as_str() {
         "quote" => cmd_quote(&a[2], &a[3]),
         "reply" => cmd_reply(&a[2], &a[3]),
+        "router" => cmd_router(&a[2], &a[3]),
+        "socket" => cmd_socket(&a[2], &a[3]),
+        "record" => cmd_record(&a[2], &a[3]),
         _ => {
             eprintln!("unknown subcommand");
             std::process::exit(2)
